@@ -2,6 +2,31 @@ E = 'babylon::ExclusiveMonotonicBufferResource::'
 X = 'ExclusiveMonotonicBufferResource_'
 PA_STUBS = ['PageAllocator_page_size', 'PageAllocator_allocate__void']
 ADDER = [X + 'oversize_page_concurrent_adder', 'GenericsConcurrentAdder_L_long_R_op_shl__int']
+CASES4 = [('nn', '(!g_live && !g_olive)'), ('ln', '(g_live && !g_olive)'), ('nl', '(!g_live && g_olive)'), ('ll', '(g_live && g_olive)')]
+CASES_P = [('n', '(!g_live)'), ('l', '(g_live)')]
+CASES_O = [('n', '(!g_olive)'), ('l', '(g_olive)')]
+
+
+def split(base, cases):
+    out = []
+    for tag, cond in cases:
+        j = dict(base)
+        j['id'] = base['id'] + '.' + tag
+        j['defines'] = list(base.get('defines', ())) + ['VF_CASE ' + cond]
+        j['case'] = cond
+        out.append(j)
+    return out
+
+
+JOBS = [
+    dict(id='C06.new_page_array', enforce=X + 'do_allocate_with_page_in_new_page_array', replace=PA_STUBS, timeout=1500),
+    dict(id='C06.oversize', enforce=X + 'do_allocate_in_oversize_page', replace=['std_pmr_memory_resource_allocate'] + ADDER, timeout=1500),
+    dict(id='C06.new_page', enforce=X + 'do_allocate_in_new_page',
+         replace=PA_STUBS + [X + 'do_allocate_with_page_in_new_page_array', X + 'do_allocate_in_oversize_page'], timeout=1500),
+    dict(id='C06.allocate', enforce=X + 'allocate__u64_u64', replace=[X + 'do_allocate_in_new_page'], timeout=1500),
+    dict(id='C06.allocate8', enforce=X + 'allocate__8', replace=[X + 'do_allocate_in_new_page'], timeout=1500),
+]
+
 GROUP = dict(
     prop='C06',
     driver='driver.cpp',
@@ -19,12 +44,5 @@ GROUP = dict(
         'requests: bytes <= 2^40, alignment a power of two <= 2^32 (recorded preconditions; result+bytes must not wrap)',
         'CBMC pointer encoding: a fresh object has offset 0, so base addresses are aligned to any power of two below 2^52',
     ],
-    jobs=[
-        dict(id='C06.new_page_array', enforce=X + 'do_allocate_with_page_in_new_page_array', replace=PA_STUBS, timeout=900),
-        dict(id='C06.oversize', enforce=X + 'do_allocate_in_oversize_page', replace=['std_pmr_memory_resource_allocate'] + ADDER, timeout=900),
-        dict(id='C06.new_page', enforce=X + 'do_allocate_in_new_page',
-             replace=PA_STUBS + [X + 'do_allocate_with_page_in_new_page_array', X + 'do_allocate_in_oversize_page'], timeout=900),
-        dict(id='C06.allocate', enforce=X + 'allocate__u64_u64', replace=[X + 'do_allocate_in_new_page'], timeout=900),
-        dict(id='C06.allocate8', enforce=X + 'allocate__8', replace=[X + 'do_allocate_in_new_page'], timeout=900),
-    ],
+    jobs=JOBS,
 )
